@@ -116,7 +116,7 @@ class SimpleExpressionParser(ParserBase):
             pattern = re.escape(pattern)
         try:
             return _data_expression(key, pattern, case_sensitive)
-        except re.error as err:
+        except (re.error, OverflowError) as err:
             raise ParseError(
                 f"Could not compile regular expression pattern {pattern!r}.",
                 position=pattern_position,
@@ -174,7 +174,7 @@ class SimpleExpressionParser(ParserBase):
             pattern = re.escape(pattern)
         try:
             return _id_expression(pattern, case_sensitive)
-        except re.error as err:
+        except (re.error, OverflowError) as err:
             raise ParseError(
                 f"Could not compile regular expression pattern {pattern!r}.",
                 position=pattern_position,
